@@ -126,6 +126,9 @@ class IsoDepInitiator(object):
                 except nfc.clf.ProtocolError:
                     log.error("ISO-DEP unrecoverable protocol error")
                     raise Type4TagCommandError(nfc.tag.PROTOCOL_ERROR)
+                except nfc.clf.CommunicationError as error:
+                    log.error("ISO-DEP unrecoverable %r", error)
+                    raise Type4TagCommandError(nfc.tag.RECEIVE_ERROR)
 
             if data[0] & 0x01 != self.pni:
                 log.warning("ISO-DEP protocol error: block number")
@@ -171,6 +174,9 @@ class IsoDepInitiator(object):
                 except nfc.clf.ProtocolError:
                     log.error("ISO-DEP unrecoverable protocol error")
                     raise Type4TagCommandError(nfc.tag.PROTOCOL_ERROR)
+                except nfc.clf.CommunicationError as error:
+                    log.error("ISO-DEP unrecoverable %r", error)
+                    raise Type4TagCommandError(nfc.tag.RECEIVE_ERROR)
 
             if data[0] & 0x01 != self.pni:
                 log.error("ISO-DEP protocol error: block number")
